@@ -47,6 +47,9 @@ pub fn single_toggles() -> Vec<(&'static str, Vec<(&'static str, &'static str)>)
     ]
 }
 
+/// Designs #0..N are a fixed corpus (see notes/C03.md): known findings name "design #i".
+pub const CORPUS_SEED: u64 = 0xC03_C0DE_2026;
+
 const DIAG_ENV: &[&str] = &[
     "VERYL_COMB_FUSION_DIAG",
     "VERYL_CONE_GATE_DIAG",
@@ -93,9 +96,10 @@ pub fn worker(args: Args) {
     for i in lo..hi {
         let use_cc = cc_every > 0 && i % cc_every == 0;
         let r = fresh_thread(STACK_64M, move || {
-            let mut rng = Rng::for_case(seed, "C03", i);
+            let mut rng = Rng::for_case(CORPUS_SEED, "C03-corpus", i);
             let (opts, mode) = worker_opts(&mut rng);
             let d = generate(&mut rng, &opts);
+            let mut rng = Rng::for_case(seed, "C03-stim", i);
             let stim = stimulus(&d, &mut rng, cycles);
             let md = default_metadata();
             let a = match accept(&d, &md) {
@@ -264,7 +268,8 @@ pub fn main(args: Args) {
         let (base, _) = run_arm(&arms[0], &a1, i, i + 1, cyc, true, 1);
         let (other, _) = run_arm(a, &a1, i, i + 1, cyc, true, 1);
         run.eval();
-        compare(&run, &arms[0].name, &base, &a.name, a, &other, cyc);
+        let diffs = compare(&run, &arms[0].name, &base, &a.name, a, &other, cyc);
+        report_diffs(&run, &arms, diffs);
         run.finish(&[]);
     }
 
@@ -300,9 +305,11 @@ pub fn main(args: Args) {
             s => run.count(&format!("not_simulated_{s}"), 1),
         }
     }
+    let mut diffs = vec![];
     for (k, out) in results.iter().skip(1) {
-        compare(&run, &arms[0].name, base, &arms[*k].name, &arms[*k], out, cycles);
+        diffs.extend(compare(&run, &arms[0].name, base, &arms[*k].name, &arms[*k], out, cycles));
     }
+    report_diffs(&run, &arms, diffs);
     // pass activity seen by the repo's own diagnostics
     let mut fired = serde_json::Map::new();
     for (k, v) in &diag_tags {
@@ -319,7 +326,17 @@ pub fn main(args: Args) {
     ]);
 }
 
-fn compare(run: &Run, base_name: &str, base: &BTreeMap<u64, Json>, name: &str, arm: &Arm, other: &BTreeMap<u64, Json>, cycles: usize) {
+/// One difference between an arm and the baseline.
+struct Diff {
+    i: u64,
+    /// engine name, or "status" when the arm could not simulate the design at all
+    engine: String,
+    arm: String,
+    detail: Json,
+}
+
+fn compare(run: &Run, _base_name: &str, base: &BTreeMap<u64, Json>, name: &str, arm: &Arm, other: &BTreeMap<u64, Json>, cycles: usize) -> Vec<Diff> {
+    let mut out = vec![];
     for (i, b) in base {
         if b["status"] != "ok" {
             continue;
@@ -329,11 +346,12 @@ fn compare(run: &Run, base_name: &str, base: &BTreeMap<u64, Json>, name: &str, a
             continue;
         };
         if o["status"] != "ok" {
-            run.violation(
-                &format!("status-differs:{name}"),
-                &format!("case {i}: baseline simulates the design but toggle set {name} reports {} {}", o["status"], o["detail"]),
-                json!({"case_index": i, "arm": name, "cycles": cycles, "env": arm.env}),
-            );
+            out.push(Diff {
+                i: *i,
+                engine: "status".into(),
+                arm: name.into(),
+                detail: json!({"case_index": i, "arm": name, "cycles": cycles, "env": arm.env, "arm_status": o["status"], "arm_detail": o["detail"]}),
+            });
             continue;
         }
         let (Some(bd), Some(od)) = (b["digests"].as_object(), o["digests"].as_object()) else { continue };
@@ -341,13 +359,103 @@ fn compare(run: &Run, base_name: &str, base: &BTreeMap<u64, Json>, name: &str, a
             let Some(ov) = od.get(engine) else { continue };
             run.count("trace_digest_comparisons", 1);
             if bv != ov {
-                run.violation(
-                    &format!("digest-differs:{name}:{engine}:case{i}"),
-                    &format!("case {i} engine {engine}: trace digest under toggle set {name} ({}) differs from {base_name} ({})", ov, bv),
-                    json!({"case_index": i, "arm": name, "engine": engine, "cycles": cycles, "env": arm.env,
+                out.push(Diff {
+                    i: *i,
+                    engine: engine.clone(),
+                    arm: name.into(),
+                    detail: json!({"case_index": i, "arm": name, "engine": engine, "cycles": cycles, "env": arm.env,
                            "baseline_digest": bv, "arm_digest": ov, "traces_baseline": b.get("traces"), "traces_arm": o.get("traces"), "design": o.get("design")}),
-                );
+                });
             }
         }
     }
+    out
+}
+
+/// Group the differences per (design, engine): the single-toggle arms that differ name the
+/// passes responsible; a composite arm (all_off, subsetK, …) is reported on its own only when
+/// none of its member toggles differs singly (an interaction).
+fn report_diffs(run: &Run, arms: &[Arm], diffs: Vec<Diff>) {
+    let single: Vec<&str> = single_toggles().iter().map(|(n, _)| *n).collect();
+    let mut groups: BTreeMap<(u64, String), Vec<Diff>> = BTreeMap::new();
+    for d in diffs {
+        groups.entry((d.i, d.engine.clone())).or_default().push(d);
+    }
+    for ((i, engine), ds) in groups {
+        let mut singles: Vec<&Diff> = ds.iter().filter(|d| single.contains(&d.arm.as_str())).collect();
+        singles.sort_by(|a, b| a.arm.cmp(&b.arm));
+        if !singles.is_empty() {
+            let names: Vec<&str> = singles.iter().map(|d| d.arm.as_str()).collect();
+            run.violation(
+                &format!("design#{i}:{engine}:toggles={}", names.join("+")),
+                &format!("corpus design #{i}, engine {engine}: trace changes when switching {} (single-pass arms) vs all passes on", names.join(", ")),
+                singles[0].detail.clone(),
+            );
+        }
+        let explained: Vec<(String, String)> = singles
+            .iter()
+            .flat_map(|d| arms.iter().find(|a| a.name == d.arm).map(|a| a.env.clone()).unwrap_or_default())
+            .collect();
+        for d in ds.iter().filter(|d| !single.contains(&d.arm.as_str())) {
+            let env = arms.iter().find(|a| a.name == d.arm).map(|a| a.env.clone()).unwrap_or_default();
+            if env.iter().any(|e| explained.contains(e)) {
+                run.count("composite_differences_explained_by_a_single_toggle", 1);
+                continue;
+            }
+            let mut members: Vec<String> = env.iter().map(|(k, v)| format!("{k}={v}")).collect();
+            members.sort();
+            run.violation(
+                &format!("design#{i}:{engine}:composite:{}", members.join(",")),
+                &format!("corpus design #{i}, engine {engine}: trace changes under toggle set {} although none of its toggles changes it alone", d.arm),
+                d.detail.clone(),
+            );
+        }
+    }
+}
+
+/// Triage helper (not a check): `--prop C03RED --seed S --set case=I --set cycles=N --set engine=jit
+/// --set env=VERYL_COND_HOIST_DISABLE=1` — shrink case I to a small design whose trace under `engine`
+/// still differs when the env var is set.  Only valid for toggles that are read at every conversion
+/// (not the `OnceLock`-cached ones).
+pub fn reduce_main(args: Args) {
+    let i: u64 = args.get("case").unwrap().parse().unwrap();
+    let cycles: usize = args.get("cycles").unwrap().parse().unwrap();
+    let engine = args.get("engine").unwrap_or("jit").to_string();
+    let (k, v) = args.get("env").unwrap().split_once('=').unwrap();
+    let (k, v) = (k.to_string(), v.to_string());
+    let mut rng = Rng::for_case(CORPUS_SEED, "C03-corpus", i);
+    let (opts, _) = worker_opts(&mut rng);
+    let d0 = generate(&mut rng, &opts);
+    let mut rng = Rng::for_case(args.seed, "C03-stim", i);
+    let stim = stimulus(&d0, &mut rng, cycles);
+    let cfg = engine_set(true).into_iter().find(|(n, _)| *n == engine).expect("engine").1;
+    let differs = move |text: &str, need_clean: bool| -> bool {
+        let mut d = d0.clone();
+        d.text = text.to_string();
+        let stim = stim.clone();
+        let cfg = cfg.clone();
+        let (k, v) = (k.clone(), v.clone());
+        fresh_thread(STACK_64M, move || {
+            let md = default_metadata();
+            let Accept::Ok(a) = accept(&d, &md) else { return false };
+            if need_clean && !a.all_codes().is_empty() {
+                return false;
+            }
+            unsafe { std::env::remove_var(&k) };
+            let Ok(t0) = sim_run(&a.ir, &d, &cfg, &stim) else { return false };
+            unsafe { std::env::set_var(&k, &v) };
+            let t1 = sim_run(&a.ir, &d, &cfg, &stim);
+            unsafe { std::env::remove_var(&k) };
+            matches!(t1, Ok(t1) if t1 != t0)
+        })
+        .unwrap_or(false)
+    };
+    let mut rng2 = Rng::for_case(CORPUS_SEED, "C03-corpus", i);
+    let (opts2, _) = worker_opts(&mut rng2);
+    let d = generate(&mut rng2, &opts2);
+    println!("original differs: {}", differs(&d.text, false));
+    let mut keep = |t: &str| differs(t, false);
+    let small = vgen::reduce::reduce(&d.text, &mut keep, 4000);
+    println!("reduced ({} -> {} lines):\n{}", d.text.lines().count(), small.lines().count(), small);
+    std::process::exit(0);
 }
